@@ -882,7 +882,7 @@ impl Prop for C01 {
             "lenient-or-reject kinds (bare LF line endings) may be answered 400 or accepted; only silence is a violation".into(),
             "a truncated final request followed by client close may be answered 400/408 or closed silently".into(),
             "Date is checked at second granularity against the virtual wall clock between first request byte sent and first response byte received".into(),
-            "threaded runtime only in this check (the tokio twin is a separate engine)".into(),
+            "this phase is the threaded runtime; the tokio runtime is exercised by the twin phase C01T of the same check (no connection timeout exists there, so 408 is never expected)".into(),
         ]
     }
     fn expected_counters(&self) -> Vec<&'static str> {
